@@ -66,9 +66,13 @@ def block_start(line, first):
         return 'atx heading'
     if s.startswith('>'):
         return 'block quote'
-    if re.match(r'[-+*]([ \t]|$)', s):
+    # a list item can interrupt a paragraph only when it is not empty and, if ordered, numbered 1 (spec 5.2/5.3):
+    # on a continuation line an empty item ('+' alone) and '2. x' are paragraph text
+    m = re.match(r'[-+*]([ \t]|$)', s)
+    if m and (first or s[m.end():].strip(' \t') != ''):
         return 'bullet list'
-    if re.match(r'\d{1,9}[.)]([ \t]|$)', s):
+    m = re.match(r'(\d{1,9})[.)]([ \t]|$)', s)
+    if m and (first or (s[m.end():].strip(' \t') != '' and int(m.group(1)) == 1)):
         return 'ordered list'
     if s.startswith('```') or s.startswith('~~~'):
         return 'fence'
